@@ -115,9 +115,13 @@ int main()
 		else if(v.size()==3 && v[0]=="sb2") {
 			std::string name=unhex(v[1]);
 			char c[2]; c[0]=char(strtoul(v[2].c_str(),0,16));
-			std::vector<bool> r;
+			std::vector<bool> r,r1;
 			for(int b=0;b<256;b++) { c[1]=char(b); size_t n=0; r.push_back(cppcms::encoding::valid(name,c,c+2,n)); }
-			out="sb2 "+bits(r);
+			// the same bytes on their own (for the context-independence oracle)
+			for(int b=0;b<256;b++) { char d=char(b); size_t n=0; r1.push_back(cppcms::encoding::valid(name,&d,&d+1,n)); }
+			size_t n0=0;
+			bool va=cppcms::encoding::valid(name,c,c+1,n0);
+			out="sb2 "+bits(r)+(va?" 1 ":" 0 ")+bits(r1);
 		}
 		else if(v.size()==2 && v[0]=="enc") {
 			uint32_t cp=strtoul(v[1].c_str(),0,16);
